@@ -11,9 +11,10 @@
  *   R us s0.. t0.. c0..                  SDreaddata  (buffer = prod max(c,0) elements, pre-set to 0xA5, guarded)
  *   G                                    SDgetinfo + SDgetfillvalue
  *   C                                    SDendaccess (all) + SDend + SDstart(DFACC_RDWR) + SDselect of every dataset
+ *   O                                    like C, but the file is reopened with DFACC_READ (read-only session)
  *   E                                    end of history (SDendaccess + SDend)
  * Output: one line per input record:
- *   H ok|fail / D ok|fail / S ok / M prev / V ret / B ret / W ret | transfers / R ret g<0|1> n hex.. | transfers /
+ *   H ok|fail / D ok|fail / S ok / O ok|fail / M prev / V ret / B ret / W ret | transfers / R ret g<0|1> n hex.. | transfers /
  *   G ret rank nt d0.. ; fv ret hex / C ok|fail / E
  * transfers = the Hsetlength/Hwrite/Hread calls (l<len>, w<pos>:<len>, r<pos>:<len>) the library issued on the
  * dataset's data element (tag DFTAG_SD) during that call, observed by link-time interposition.
@@ -193,18 +194,18 @@ int main(int argc, char **argv)
             if (rf != FAIL) puthex(v, w); else printf("-");
             printf("\n");
         }
-        else if (op[0] == 'C') {
+        else if (op[0] == 'C' || op[0] == 'O') {
             intn a = SUCCEED;
             sdsv[cur] = sds;
             for (int i = 0; i < nds; i++) if (SDendaccess(sdsv[i]) == FAIL) a = FAIL;
             intn b = SDend(fid);
-            fid = SDstart(path, DFACC_RDWR);
+            fid = SDstart(path, op[0] == 'C' ? DFACC_RDWR : DFACC_READ);
             for (int i = 0; i < nds; i++) {
                 sdsv[i] = fid == FAIL ? FAIL : SDselect(fid, i);
                 if (sdsv[i] == FAIL) a = FAIL;
             }
             sds = sdsv[cur];
-            printf("C %s\n", (a == FAIL || b == FAIL || sds == FAIL) ? "fail" : "ok");
+            printf("%c %s\n", op[0], (a == FAIL || b == FAIL || sds == FAIL) ? "fail" : "ok");
         }
         else if (op[0] == 'E') {
             intn a = sds != FAIL ? SUCCEED : FAIL;
